@@ -107,8 +107,10 @@ macro_rules! cps { ($($($c:expr),+);+) => { &[ $( &[ $($c),+ ] ),+ ] }; }
 const COMMON: &[(&str, &[&[u32]])] = &[
     ("ZWJ", cps![0x200D]),
     ("ZWNJ", cps![0x200C]),
-    ("VS15", cps![0xFE0E]),
-    ("VS16", cps![0xFE0F]),
+    // text / emoji presentation selectors, the selectors VS1..VS3 that request neither, and VS4 which
+    // allsorts does not treat as a selector (it is mapped like any character)
+    ("VS15", cps![0xFE0E; 0xFE00; 0xFE02]),
+    ("VS16", cps![0xFE0F; 0xFE01; 0xFE03]),
     ("For", cps![0x0041; 0x4E00; 0x1F600; 0x0E01; 0x0628; 0x0915; 0x00E9]),
     ("DC", cps![0x25CC]),
 ];
@@ -346,7 +348,55 @@ struct Job {
     tuple: u8, // 0 None, 1 default, 2 off-default (variable fonts only)
     rtl: bool,
     salt: u64,
-    text: Option<Vec<u32>>, // explicit text (exec), otherwise concretised from the class string
+    text: Option<Vec<u32>>, // explicit text (exec, call sequences), otherwise concretised from the class string
+    pres: bool,    // Font::map_glyphs(.., MatchingPresentation::Required)
+    noshape: bool, // the step maps the text only (shape and glyph_positions are not called)
+    fresh: bool,   // the job starts on a new Font object (first step of a call sequence)
+    /// call sequences (MC_ShaperCalls): (sequence, step); `pre` = the steps before this one
+    seq: Option<(usize, usize)>,
+    pre: Vec<PreStep>,
+}
+
+/// an earlier step of a call sequence: (Required presentation, map only, text)
+type PreStep = (bool, bool, Vec<u32>);
+
+/// one step of a call sequence of MC_ShaperCalls
+#[derive(Clone, Debug)]
+struct CallStep {
+    pres: bool,
+    txt: String,
+    shape: bool,
+}
+
+fn load_calls(cases_path: &str) -> Vec<Vec<CallStep>> {
+    let p = format!("{}.calls", cases_path);
+    if !std::path::Path::new(&p).exists() {
+        return Vec::new();
+    }
+    read_ndjson(&p)
+        .into_iter()
+        .map(|c| {
+            c["steps"].as_array().expect("steps").iter()
+                .map(|s| CallStep { pres: s["pres"].as_str() == Some("R"), txt: s["txt"].as_str().expect("txt").to_string(), shape: s["shape"].as_bool().expect("shape") })
+                .collect()
+        })
+        .collect()
+}
+
+/// the text of a step kind; `c` = a letter of the font's script
+fn step_text(kind: &str, c: u32) -> Vec<u32> {
+    match kind {
+        "plain" => vec![c, c],
+        "dc" => vec![0x25CC, c],
+        "dcvs" => vec![0x25CC, 0xFE0F, c],
+        "dcdc" => vec![0x25CC, c, 0x25CC],
+        x => panic!("step text kind {}", x),
+    }
+}
+
+/// U+25CC not followed by a variation selector
+fn has_plain_dotted_circle(t: &[u32]) -> bool {
+    t.iter().enumerate().any(|(i, &c)| c == 0x25CC && !t.get(i + 1).map_or(false, |&n| matches!(n, 0xFE00..=0xFE02 | 0xFE0E | 0xFE0F)))
 }
 
 const TUPLE_NAMES: [&str; 3] = ["none", "default", "off-default"];
@@ -356,7 +406,7 @@ fn alien_script(script: &'static str, x: u64) -> &'static str {
     others[(x % others.len() as u64) as usize]
 }
 
-fn build_plan(tier: &str, seed: u64, cases: &[Case], catalog: &[SynthFont]) -> (Vec<FontEntry>, Vec<Job>) {
+fn build_plan(tier: &str, seed: u64, cases: &[Case], catalog: &[SynthFont], calls: &[Vec<CallStep>]) -> (Vec<FontEntry>, Vec<Job>) {
     let fonts = font_entries(catalog);
     let quick = tier == "quick";
     let mut jobs = Vec::new();
@@ -388,6 +438,12 @@ fn build_plan(tier: &str, seed: u64, cases: &[Case], catalog: &[SynthFont]) -> (
             rtl: (x >> 7) % 2 == 0,
             salt: x,
             text: None,
+            // a quarter of the jobs map the text with MatchingPresentation::Required
+            pres: (x >> 10) % 4 == 0,
+            noshape: false,
+            fresh: false,
+            seq: None,
+            pre: Vec::new(),
         }
     };
     // Part A: syllable class strings on the intact repository fonts of each script
@@ -524,7 +580,7 @@ fn build_plan(tier: &str, seed: u64, cases: &[Case], catalog: &[SynthFont]) -> (
         // font cases: a quarter
         let n_corrupt = match fonts[fi].synth.map(|si| catalog[si].family) {
             None => n_corrupt,
-            Some("lkp") | Some("morx") | Some("morxrnd") => n_corrupt / 4,
+            Some("lkp") | Some("morx") | Some("morxrnd") | Some("cnt") => n_corrupt / 4,
             Some(_) => n_corrupt / 2,
         };
         for k in 1..=n_corrupt {
@@ -541,7 +597,54 @@ fn build_plan(tier: &str, seed: u64, cases: &[Case], catalog: &[SynthFont]) -> (
             }
         }
     }
+    // Part E: the call sequences of MC_ShaperCalls, each on a fresh Font object: every sequence on the first
+    // font of the three shapers with most state, the colour emoji font (Required presentation differs there)
+    // and two synthesized fonts; the sequences of at most two steps on the first font of every other script
+    {
+        let mut deep: Vec<usize> = Vec::new();
+        let mut shallow: Vec<usize> = Vec::new();
+        for (script, fis) in by_script.iter() {
+            if matches!(*script, "latn" | "deva" | "arab") { deep.push(fis[0]) } else { shallow.push(fis[0]) }
+        }
+        if let Some(fi) = fonts.iter().position(|f| f.rel.contains("Emoji")) {
+            if !deep.contains(&fi) {
+                deep.push(fi);
+            }
+        }
+        for pre in ["synth/frac-liga", "synth/mx-lig-"] {
+            if let Some(fi) = fonts.iter().position(|f| f.rel.starts_with(pre)) {
+                deep.push(fi);
+            }
+        }
+        let max_deep = if quick { 3 } else { 4 };
+        for (depth_cap, fis) in [(max_deep, &deep), (2usize, &shallow)] {
+            for &fi in fis.iter() {
+                let letter = script_spec(fonts[fi].script).cls.iter().find(|(n, _)| *n == "C").map(|(_, v)| v[0][0]).unwrap_or(0x61);
+                for (qi, steps) in calls.iter().enumerate() {
+                    if steps.len() > depth_cap {
+                        continue;
+                    }
+                    let x = h(&[seed, qi as u64, fi as u64, 0xE]);
+                    let mut pre: Vec<PreStep> = Vec::new();
+                    for (k, st) in steps.iter().enumerate() {
+                        let mut j = mk(fi, usize::MAX, 0, (x % 2) as u8, true, x, &fonts);
+                        j.script = fonts[fi].script;
+                        j.vert = false;
+                        j.text = Some(step_text(&st.txt, letter));
+                        j.pres = st.pres;
+                        j.noshape = !st.shape;
+                        j.fresh = k == 0;
+                        j.seq = Some((qi, k));
+                        j.pre = pre.clone();
+                        pre.push((j.pres, j.noshape, j.text.clone().unwrap()));
+                        jobs.push(j);
+                    }
+                }
+            }
+        }
+    }
     // group by font (and corruption) so that a worker loads each font once and calls it repeatedly
+    // (the sort is stable: the steps of a call sequence stay together and in order)
     jobs.sort_by_key(|j| (j.font, j.corrupt));
     (fonts, jobs)
 }
@@ -767,7 +870,7 @@ fn job_args(fonts: &[FontEntry], cases: &[Case], j: &Job, idx: usize, wf: bool, 
     };
     let empty: Vec<String> = Vec::new();
     let cls = cases.get(j.case).map(|c| &c.cls).unwrap_or(&empty);
-    let fam = if cases.get(j.case).map_or(false, |c| c.txt) { "txt" } else { "syl" };
+    let fam = if j.seq.is_some() { "seq" } else if cases.get(j.case).map_or(false, |c| c.txt) { "txt" } else { "syl" };
     let via = &fonts[j.font].via;
     json!({
         "fam": fam,
@@ -775,6 +878,11 @@ fn job_args(fonts: &[FontEntry], cases: &[Case], j: &Job, idx: usize, wf: bool, 
         "via": if j.corrupt == 0 { via.as_str() } else { via.split('/').next().unwrap_or("") },
         "budget_ms": fonts[j.font].budget_ms,
         "vert": j.vert,
+        "pres": if j.pres { "Required" } else { "NotRequired" },
+        "noshape": j.noshape,
+        "step": j.seq.map_or(-1, |s| s.1 as i64),
+        // the calls made on the Font object before this one, when the job is a step of a call sequence
+        "pre": j.pre.iter().map(|(p, n, t)| json!([p, n, t])).collect::<Vec<Value>>(),
         "job": idx,
         "font": fonts[j.font].rel,
         "corrupt": if j.corrupt == 0 { String::new() } else { format!("#{}:{}", j.corrupt, cdesc) },
@@ -929,6 +1037,20 @@ fn facts(j: &Job, sf: Option<&SynthFont>, mapped: &[(u16, Vec<char>)], infos: &[
         }
         if shape_err {
             hit("morx_shape_err");
+        }
+    }
+    if sf.family == "cnt" {
+        let napply: i64 = sf.tags.iter().find_map(|t| t.strip_prefix("cnt_napply_").and_then(|v| v.parse().ok())).unwrap_or(0);
+        let above = sf.tags.iter().any(|t| t == "cnt_list_above_inline_capacity");
+        let gpos_all = sf.tags.iter().any(|t| t == "cnt_gpos")
+            && infos.iter().any(|i| i.glyph.glyph_index == G_X && i.kerning != 0 && i.kerning as i64 % napply == 0);
+        // an odd number of GSUB lookups that turn x into xalt and back leaves xalt
+        let gsub_all = sf.tags.iter().any(|t| t == "cnt_gsub") && napply % 2 == 1 && infos.iter().any(|i| i.glyph.glyph_index == G_XALT);
+        if gpos_all || gsub_all {
+            hit("cnt_every_lookup_of_the_list_applied");
+            if above {
+                hit("cnt_every_lookup_applied_list_above_inline_capacity");
+            }
         }
     }
     if sf.family == "lkp" {
@@ -1090,9 +1212,30 @@ fn run_group(
         let mut poisoned = false;
         let mut had_err = false; // this Font object has already returned Err from shape
         let mut calls = 0u64;
+        // a step of a call sequence that meets a new Font object (shard boundary, restart after a panic or a
+        // process death, replay): the earlier steps of the sequence are made first, unrecorded
+        for (pres, noshape, t) in jobs[idx].pre.iter() {
+            let j = &jobs[idx];
+            let text: String = t.iter().filter_map(|c| char::from_u32(*c)).collect();
+            let mp = if *pres { MatchingPresentation::Required } else { MatchingPresentation::NotRequired };
+            let script = tag4(j.script);
+            let lang = if j.use_lang { Some(tag4(script_spec(j.text_script).lang)) } else { None };
+            let feats = features_of(j.feat);
+            let noshape = *noshape;
+            let _ = guarded(|| {
+                let glyphs = font.map_glyphs(&text, script, mp);
+                if !noshape {
+                    let _ = font.shape(glyphs, script, lang, &feats, None, j.kern);
+                }
+            });
+        }
         while idx < range.end && !poisoned {
             let j = &jobs[idx];
-            let a = job_args(fonts, cases, j, idx, wf, ng, &cdesc);
+            if j.fresh && calls > 0 {
+                break; // the first step of a call sequence: a new Font object
+            }
+            let mut a = job_args(fonts, cases, j, idx, wf, ng, &cdesc);
+            a["used"] = json!(calls > 0);
             let text: String = a["text"].as_array().unwrap().iter().map(|c| char::from_u32(c.as_u64().unwrap() as u32).unwrap()).collect();
             *shared.current.lock().unwrap() = Some((idx as u64, a.clone()));
             shared.budget_ns.store(fonts[j.font].budget_ms * 1_000_000, Ordering::SeqCst);
@@ -1112,11 +1255,16 @@ fn run_group(
                 fx.insert("call_on_font_after_err".into(), 1);
             }
             calls += 1;
-            match guarded(|| font.map_glyphs(&text, script, MatchingPresentation::NotRequired)) {
+            let mp = if j.pres { MatchingPresentation::Required } else { MatchingPresentation::NotRequired };
+            match guarded(|| font.map_glyphs(&text, script, mp)) {
                 Outcome::Panicked(m) => {
                     o["map"] = json!("Panic");
                     o["msg"] = json!(m);
                     poisoned = true;
+                }
+                Outcome::Returned(glyphs) if j.noshape => {
+                    o["map"] = json!("Ok");
+                    o["mapped"] = project_raw(&glyphs);
                 }
                 Outcome::Returned(glyphs) => {
                     o["map"] = json!("Ok");
@@ -1310,7 +1458,8 @@ struct Plan {
 fn load_plan(tier: &str, seed: u64, cases_path: &str) -> Plan {
     let cases = load_cases(cases_path);
     let catalog = full_catalog(cases_path, tier, seed);
-    let (fonts, jobs) = build_plan(tier, seed, &cases, &catalog);
+    let calls = load_calls(cases_path);
+    let (fonts, jobs) = build_plan(tier, seed, &cases, &catalog, &calls);
     Plan { cases, catalog, fonts, jobs }
 }
 
@@ -1483,7 +1632,25 @@ fn exec_one(spec: &str) {
         rtl: a["dir"].as_str() == Some("rtl"),
         salt: 0,
         text: Some(a["text"].as_array().expect("text").iter().map(|c| c.as_u64().unwrap() as u32).collect()),
+        pres: a["pres"].as_str() == Some("Required"),
+        noshape: a["noshape"].as_bool().unwrap_or(false),
+        fresh: true,
+        seq: None,
+        pre: Vec::new(),
     };
+    let mut job = job;
+    let to_text = |v: &Value| -> Vec<u32> { v.as_array().map_or(Vec::new(), |t| t.iter().map(|c| c.as_u64().unwrap_or(0) as u32).collect()) };
+    match a["pre"].as_array() {
+        Some(pre) if !pre.is_empty() => {
+            job.pre = pre.iter().map(|s| (s[0].as_bool().unwrap_or(false), s[1].as_bool().unwrap_or(false), to_text(&s[2]))).collect();
+        }
+        // a job that met a Font object other calls had used: the same call is made once before (the calls that
+        // really preceded it are those of the plan; `c02_shape one` re-executes a job of the plan)
+        _ if a["used"].as_bool() == Some(true) => {
+            job.pre = vec![(job.pres, job.noshape, job.text.clone().unwrap())];
+        }
+        _ => {}
+    }
     let shared = Arc::new(Shared::new(None, Progress::private()));
     spawn_watchdog(&shared);
     let mut stats = Stats::default();
@@ -1501,8 +1668,47 @@ fn plan_counters(plan: &Plan) -> BTreeMap<String, u64> {
     let mut c: BTreeMap<String, u64> = BTreeMap::new();
     let mut bump = |k: String, n: u64| *c.entry(k).or_insert(0) += n;
     let mut seen_font = vec![false; plan.fonts.len()];
+    let mut prev: Option<(usize, u32)> = None;
     for j in &plan.jobs {
         let f = &plan.fonts[j.font];
+        // ---- how the text is mapped, and what the Font object has seen before (inputs only)
+        let used = prev == Some((j.font, j.corrupt)) && !j.fresh;
+        prev = Some((j.font, j.corrupt));
+        if j.pres {
+            bump("plan_jobs_required_presentation".into(), 1);
+            let text: Vec<u32> = match &j.text {
+                Some(t) => t.clone(),
+                None => concretise(script_spec(j.text_script), &plan.cases[j.case], j.salt),
+            };
+            if has_plain_dotted_circle(&text) {
+                bump("plan_jobs_required_presentation_dotted_circle".into(), 1);
+                if used {
+                    bump("plan_jobs_required_presentation_dotted_circle_on_used_font".into(), 1);
+                }
+            }
+        }
+        if let Some((_, k)) = j.seq {
+            bump("plan_jobs_seq".into(), 1);
+            if k == 0 {
+                bump("plan_call_sequences".into(), 1);
+            }
+            if j.noshape {
+                bump("plan_jobs_seq_map_only".into(), 1);
+            }
+            let dc = j.text.as_ref().map_or(false, |t| has_plain_dotted_circle(t));
+            // the cache is filled by an earlier shape call or an earlier plain lookup of U+25CC
+            let filled = j.pre.iter().any(|(p, n, t)| !*n || (!*p && has_plain_dotted_circle(t)));
+            if j.pres && dc && filled {
+                bump("plan_jobs_seq_required_dotted_circle_on_filled_cache".into(), 1);
+            }
+            if j.pres && dc && !filled {
+                bump("plan_jobs_seq_required_dotted_circle_on_empty_cache".into(), 1);
+            }
+            if !j.pres && dc && filled {
+                bump("plan_jobs_seq_plain_dotted_circle_on_filled_cache".into(), 1);
+            }
+            continue;
+        }
         let sf = match f.synth {
             Some(si) => &plan.catalog[si],
             None => continue,
